@@ -174,16 +174,19 @@ def inDomain : Form → List Str → Bool
   | .notInAllowUsers, [u, a] | .inDenyUsers, [u, a] | .notInAnyGroup, [u, a]
   | .groupInDenyGroups, [u, a] | .groupNotInAllowGroups, [u, a] => noNL u && noSpace a
   | .nonExistentShell, [u, sh] | .nonExecShell, [u, sh] =>
-      noNL u && noNL sh && lacks u " not allowed because shell " && lacks sh " not allowed because shell "
+      noNL u && noNL sh && lacks u " not allowed because shell " && lacks sh " not allowed because shell " &&
+      lacks sh "not allowed because shell "
   | .rootLoginRefused, [a, p] => noSpace a && digits p
   | .badOwner, [u, f] => noNL u && noNL f && lacks u ": bad owner or modes for " &&
       lacks f ": bad owner or modes for "
   | .nastyPTR, [d, a] => noNL d && noSpace a && lacks d "\" is set up for "
   | .reverseMapping, [d, a] => noNL d && noSpace a && lacks a "]" && lacks d " ["
-  | .doesNotMapBack, [a, d] => noSpace a && noNL d && lacks d " maps to " && lacks d ", but this does not"
-  | .revokedByFile, [kt, fp, f] => keyTypeLike kt && noSpace fp && noNL f && lacks f " revoked by file "
+  | .doesNotMapBack, [a, d] => noSpace a && noNL d && lacks d " maps to " && lacks d ", but this does not" &&
+      lacks d "maps to "
+  | .revokedByFile, [kt, fp, f] => keyTypeLike kt && noSpace fp && noNL f && lacks f " revoked by file " &&
+      lacks f "revoked by file "
   | .revokedErr, [kt, fp, f] => keyTypeLike kt && noSpace fp && noNL f &&
-      lacks f " in revoked keys file "
+      lacks f " in revoked keys file " && lacks f "in revoked keys file "
   | _, _ => false
 
 /-! ### C06 / C17: the form's observation is the expected one -/
